@@ -307,16 +307,33 @@ Theorem C03_stale_collection_harmless :
     lookup Z.eqb (it_tm it) (timers st) = Some x /\ tm_armed x = true.
 Proof. exact stale_collection_harmless. Qed.
 
+(* The schedule that refuted the unguarded statement before the fix "the relay finishes (deletes)
+   a relay item only if it still belongs to the call the frame path looked up" ([ex_stale_finish]:
+   the reader of the destination connection has looked the originating item up for the final call
+   res -- relay.Receive.afterGet --, the caller's cancel is relayed, the id re-used at once and
+   admitted, the first reader goes on: finishRelayItem; reproduced on the implementation by C09's
+   engine relaystale, verdict [c09:stale-finish-deletes-live-item]) is harmless for the code as it
+   is: relayItems.deleteCall finds an item of another call and leaves it alone; the re-using call
+   (call 2) keeps its item, its armed timer and its pending count. *)
+Theorem C03_stale_finish_harmless :
+  exists st it x, run cn_cf init ex_stale_finish = Some st /\ panicked st = 0 /\
+    lookup key_eqb (0, 0, 7) (items st) = Some it /\ it_tomb it = false /\ it_call it = 2 /\
+    lookup Z.eqb (it_tm it) (timers st) = Some x /\ tm_armed x = true /\ c_pending (get_conn st 0) = 1.
+Proof. exact stale_finish_harmless. Qed.
+
 (* The guard of [run_reuse] is STILL NECESSARY: the unrestricted statement "no schedule with
-   re-used ids panics" is REFUTED for the code as it is by [ex_stale_finish]: the reader of the
-   destination connection has looked the originating item up for the final call res (timer
-   stopped, copy held: relay.Receive.afterGet); the caller cancels the call (cancel relayed, both
-   items deleted, End) and re-uses the id at once: no item, admitted, a live item with an armed
-   timer under the same key; the first reader goes on and finishRelayItem deletes the LIVE item of
-   the new call: release of an active timer, panic "only stopped or completed timers can be
-   released".  The re-using call req met no item, so the schedule is outside [run_reuse]. *)
+   re-used ids panics" is REFUTED for the code as it is by [ex_stale_fail] (RelayMaxTombs = 1 and
+   two tombstones of earlier calls): failRelayItem looks the item up (Get: timer stopped) and
+   entombs BY ID in a second lock region; the reader of the destination connection, failing the
+   call because the caller's send queue is full, is between the two; the caller's cancel is
+   relayed (both items deleted, End) and the id re-used at once (no item: admitted, live item,
+   armed timer); Entomb then finds more than RelayMaxTombs tombstones and deletes by id at once:
+   the LIVE item of the new call, whose active timer it releases: panic "only stopped or completed
+   timers can be released".  (Model witness only: relay.go has no schedule point between the Get
+   and the Entomb of failRelayItem; the re-using call req met no item, so the schedule is outside
+   [run_reuse].) *)
 Theorem C03_relay_reuse_unguarded_refuted :
-  exists ls st, run cn_cf init ls = Some st /\ panicked st = panic_release_active.
+  exists ls st, run tt_cf init ls = Some st /\ panicked st = panic_release_active.
 Proof. exact reuse_unguarded_refuted. Qed.
 
 (* the fresh-id schedules of C09/C10 are re-use schedules (the guard speaks about re-used ids only) *)
@@ -327,6 +344,7 @@ Print Assumptions C03_relay_admission_generated.
 Print Assumptions C03_duplicate_check_covers_tombstones.
 Print Assumptions C03_collection_leaves_live_item.
 Print Assumptions C03_stale_collection_harmless.
+Print Assumptions C03_stale_finish_harmless.
 Print Assumptions C03_relay_reuse_simulated.
 Print Assumptions C03_relay_reuse_no_panic.
 Print Assumptions C03_fresh_schedules_included.
